@@ -97,6 +97,78 @@ def compare(chk, mode_args, lines_in, keys_of, stats):
             stats["text_mismatch"].append((p, unhx(src), unhx(mtxt)))
         stats["validated"] += 1
 
+# ---- characters beyond ASCII: the code ranges over runes, the model over abstract characters (N); each non-ASCII rune of the
+# test alphabet is given one model character >= 0x80 (injective), the implementation gets its UTF-8 encoding
+URUNES = {"\u00e9": 0xE9, "\u30e6": 0xF0, "\u0080": 0x80, "\u00c3": 0xC3, "\u00a9": 0xA9, "\U0001f600": 0xFE}
+UALPHA = list(URUNES) + list("ab*?.+(")
+
+def u_model(s_):
+    return bytes(URUNES.get(ch, ord(ch)) for ch in s_)
+
+def u_text_back(b):
+    inv = {v: k for k, v in URUNES.items()}
+    return "".join(inv[c] if c in inv else chr(c) for c in b).encode("utf-8")
+
+def direct_glob_seq(p, k):
+    if not p:
+        return not k
+    if p[0] == "*":
+        return any(direct_glob_seq(p[1:], k[i:]) for i in range(len(k) + 1))
+    if not k:
+        return False
+    if p[0] == "?" or p[0] == k[0]:
+        return direct_glob_seq(p[1:], k[1:])
+    return False
+
+def compare_unicode(chk, rng, tier, stats):
+    pats, keysets = [], []
+    def rs(n):
+        return "".join(rng.choice(UALPHA) for _ in range(n))
+    for ch in URUNES:
+        for p_ in (ch, ch + "*", "*" + ch, "?" + ch, ch + "?", "a" + ch + "b", ch + ch, "?", "??", "*"):
+            pats.append(p_)
+    for _ in range(400 if tier == "quick" else 6000):
+        pats.append(rs(rng.randint(1, 6)))
+    base_keys = list(URUNES) + ["\u00c3\u00a9", "\u00c3\u00a9:1", "\u00e9:1", "a", "", "a\u00e9b", "\u00e9\u00e9", "\u30e6\u30e6"]
+    for p_ in pats:
+        ks = list(base_keys)
+        for _ in range(6):
+            k = "".join((rs(rng.randint(0, 2)) if c == "*" else (rng.choice(UALPHA) if c == "?" else c)) for c in p_)
+            ks.append(k)
+            if k:
+                i = rng.randrange(len(k)); ks.append(k[:i] + rng.choice(UALPHA) + k[i + 1:])
+        keysets.append(ks)
+    il = "\n".join(hx(p_.encode("utf-8")) + " " + " ".join(hx(k.encode("utf-8")) for k in ks) for p_, ks in zip(pats, keysets)) + "\n"
+    ml = "\n".join(hx(u_model(p_)) + " " + " ".join(hx(u_model(k)) for k in ks) for p_, ks in zip(pats, keysets)) + "\n"
+    rc1, o1, _ = vlib.run_harness(["glob", hx(ALPHA), "-1"], il)
+    rc2, o2, _ = vlib.run_model(["glob", hx(ALPHA), "-1"], ml)
+    impl = [l.split(" ") for l in o1.splitlines() if l.strip()]
+    mod = [l.split(" ") for l in o2.splitlines() if l.strip()]
+    if rc1 != 0 or rc2 != 0 or len(impl) != len(pats) or len(mod) != len(pats):
+        chk.violation("harness-failure", "non-ASCII run failed: rc %d/%d, lines %d/%d of %d" % (rc1, rc2, len(impl), len(mod), len(pats)), dict(stage="unicode"), True)
+        return 0
+    n = 0
+    for p_, ks, a, m in zip(pats, keysets, impl, mod):
+        if a[1] != "1":
+            chk.violation("compile-fails", "glob.Compile(%r) %s" % (p_, "panics" if a[1] == "P" else "returns an error"), dict(pattern_hex=hx(p_.encode("utf-8")), pattern=repr(p_)))
+            continue
+        ibits = bits_to_list(a[3], len(ks)); mbits = bits_to_list(m[3], len(ks))
+        want = [1 if direct_glob_seq(p_, k) else 0 for k in ks]
+        stats["evaluations"] += len(ks)
+        if ibits != want:
+            j = next(i for i in range(len(ks)) if ibits[i] != want[i])
+            chk.violation("match-differs", "pattern %r key %r: implementation says %s, glob semantics over characters say %s" % (p_, ks[j], bool(ibits[j]), bool(want[j])),
+                          dict(pattern_hex=hx(p_.encode("utf-8")), key_hex=hx(ks[j].encode("utf-8")), pattern=repr(p_), key=repr(ks[j]), regexp_source=unhx(a[2]).decode("utf-8", "replace")))
+            continue
+        if mbits != ibits:
+            chk.violation("corr-match", "correspondence (non-ASCII): pattern %r model and implementation differ" % p_, dict(pattern_hex=hx(p_.encode("utf-8"))))
+            continue
+        if u_text_back(unhx(m[1])) != unhx(a[2]):
+            stats["text_mismatch"].append((p_.encode("utf-8"), unhx(a[2]), u_text_back(unhx(m[1]))))
+        n += 1
+        stats["validated"] += 1
+    return n
+
 def direct_glob(p, k):
     """the glob relation, written directly (independent of the model and of the implementation)"""
     if not p:
@@ -178,6 +250,9 @@ def run(tier, seed):
         lines.append(hx(p) + " " + " ".join(hx(k) for k in ks))
         keysets.append(ks)
     compare(chk, [hx(ALPHA), "-1"], lines, lambda i: keysets[i], stats)
+    # characters beyond ASCII (valid UTF-8; the code ranges over runes, '?' is one character)
+    n_uni = compare_unicode(chk, rng, tier, stats)
+    chk.coverage["non_ascii_patterns"] = n_uni
     # KEYS and SCAN MATCH on a populated store (the bundled example server through the real connection loop) select
     # exactly the keys the glob relation selects
     store_cases = store_level(chk, rng, tier)
@@ -201,8 +276,9 @@ def run(tier, seed):
     chk.coverage["trusted_base"] += [
         "modelled, not verified: Go regexp (RE2) semantics on the fragment {escaped literal, literal, '.', '.*', (?s), ^ $} — Glob.re_parse/re_match; "
         "tied by this run: glob.Compile(p).String() == regexp_from_glob p and MatchString == glob_match on all explored pairs",
-        "domain: ASCII patterns/keys (Go ranges over runes; bytes >= 0x80 are outside the model)"]
-    chk.assumptions = ["patterns and keys are ASCII", "Go regexp implements RE2 on the targeted fragment"]
+        "domain: patterns and keys are sequences of characters = valid UTF-8 (the code ranges over runes; model characters are abstract N values); "
+        "byte strings that are not valid UTF-8 are outside the model (Go decodes every invalid byte as U+FFFD, so such bytes are not told apart)"]
+    chk.assumptions = ["patterns and keys are valid UTF-8 (character = code point)", "Go regexp implements RE2 on the targeted fragment"]
     chk.finish()
 
 def replay(path):
